@@ -198,6 +198,7 @@ Section Lines.
   (** * the output of lint, line by line *)
   Theorem lint_output_lines : forall (w : world) (file data : bytes) (silent : bool),
     file <> [] ->
+    file <> dev_null ->
     lookup file (w_fs w) = Some (FFile data) ->
     lookup file (w_read_fault w) = None ->
     w_sink w = None ->
@@ -207,8 +208,8 @@ Section Lines.
       ++ (if (is_nil (errors_of NM (events NM data)) && negb silent)%bool then [b "No errors found"] else [])
       ++ [[]].
   Proof.
-    intros w file data silent Hne Hfs Hrf Hsink Hr.
-    destruct (lint_ok_iff_clean NM w file data silent Hne Hfs Hrf Hsink Hr) as [H _].
+    intros w file data silent Hne Hnd Hfs Hrf Hsink Hr.
+    destruct (lint_ok_iff_clean NM w file data silent Hne Hnd Hfs Hrf Hsink Hr) as [H _].
     rewrite H, (split_on_lines _ (lint_lines_nolf data silent)).
     unfold lint_lines. rewrite <- app_assoc. reflexivity.
   Qed.
